@@ -207,6 +207,10 @@ func (it *c11Interp) eval(fr *c11Frame, st *c11St, e ast.Expr) []c11SV {
 					if v.Pkg() != nil && v.Parent() == v.Pkg().Scope() {
 						return one(c11Addr(it.evalIdent(fr, st, id)))
 					}
+					if st.escaped == nil {
+						st.escaped = map[types.Object]string{}
+					}
+					st.escaped[v] = fr.envP
 					return one(c11Ref(v, fr.envP))
 				}
 			}
@@ -308,7 +312,7 @@ func (it *c11Interp) readField(st *c11St, base *c11V, f *types.Var) *c11V {
 			if o.hv != "" {
 				return c11Sym(o.hv+"."+f.Name(), nil) // modified in a loop: unknown content
 			}
-			if o.base != nil {
+			if o.base != nil && o.base.k != "zero" {
 				return c11Field(o.base, f)
 			}
 			return it.zeroOf(st, f.Type())
